@@ -80,7 +80,7 @@ func runC04(c *Ctx) {
 			}, "moving to the next round", func(in ssa.Instruction) bool { return in == s7[0] })
 		}
 		// stale-timeout filter: only strictly older timeouts are dropped
-		lock := CallTo(`^\(\*sync\.RWMutex\)\.Lock$`, "")
+		lock := CallTo(`^\(\*(sync|github\.com/sasha-s/go-deadlock)\.RWMutex\)\.Lock$`, "")
 		c.Guarded(fn, "act on the timeout", lock, G("same height", Cmp(`^ti\.Height$`, "==", `^rs\.Height$`)), G("round not older", Cmp(`^ti\.Round$`, ">=", `^rs\.Round$`)),
 			G("in the same round, step not older", Cmp(`^ti\.Round$`, "!=", `^rs\.Round$`), Cmp(`^ti\.Step$`, ">=", `^rs\.Step$`)))
 		// ...and a timeout for the current height/round/step is never dropped: the refusal lies behind exactly these tests
